@@ -66,8 +66,6 @@ func init() {
 		"(reflect.rtype).Out":             ext۰reflect۰rtype۰Out,
 		"(reflect.rtype).Size":            ext۰reflect۰rtype۰Size,
 		"(reflect.rtype).String":          ext۰reflect۰rtype۰String,
-		"bytes.Equal":                     ext۰bytes۰Equal,
-		"bytes.IndexByte":                 ext۰bytes۰IndexByte,
 		"fmt.Sprint":                      ext۰fmt۰Sprint,
 		"math.Abs":                        ext۰math۰Abs,
 		"math.Copysign":                   ext۰math۰Copysign,
@@ -97,9 +95,6 @@ func init() {
 		"runtime.Goexit":                  ext۰runtime۰Goexit,
 		"runtime.Gosched":                 ext۰runtime۰Gosched,
 		"runtime.NumCPU":                  ext۰runtime۰NumCPU,
-		"sort.Float64s":                   ext۰sort۰Float64s,
-		"sort.Ints":                       ext۰sort۰Ints,
-		"sort.Strings":                    ext۰sort۰Strings,
 		"strconv.Atoi":                    ext۰strconv۰Atoi,
 		"strconv.Itoa":                    ext۰strconv۰Itoa,
 		"strconv.FormatFloat":             ext۰strconv۰FormatFloat,
